@@ -29,18 +29,24 @@ def build_model(start=0.0, stop=5.0, dt=1.0, name="srv"):
     f.equation = k * g
     o = m.flow("o")
     S = m.stock("S")
-    o.equation = S * 0.1
+    r = m.constant("r")
+    r.equation = 0.1
+    o.equation = S * r
     S.initial_value = 3.0
     S.equation = f - o
+    dl = m.converter("dl")          # looks 12 time units back (long sessions)
+    dl.equation = sd.delay(m, f, 12.0, 0.0)
     return m
 
 
-def ref_spec(start=0.0, stop=5.0, dt=1.0, k=2.0, pts=None):
+def ref_spec(start=0.0, stop=5.0, dt=1.0, k=2.0, pts=None, r=0.1):
     return {"start": start, "stop": stop, "dt": dt, "points": {"lk": pts or PTS}, "elements": {
         "k": {"kind": "constant", "eq": ["num", k]},
+        "r": {"kind": "constant", "eq": ["num", r]},
+        "dl": {"kind": "converter", "eq": ["delay", "f", ["num", 12.0], ["num", 0.0]]},
         "g": {"kind": "converter", "eq": ["lookup", ["time"], "lk"]},
         "f": {"kind": "flow", "eq": ["bin", "*", ["ref", "k"], ["ref", "g"]]},
-        "o": {"kind": "flow", "eq": ["bin", "*", ["ref", "S"], ["num", 0.1]]},
+        "o": {"kind": "flow", "eq": ["bin", "*", ["ref", "S"], ["ref", "r"]]},
         "S": {"kind": "stock", "init": ["num", 3.0], "eq": ["bin", "-", ["ref", "f"], ["ref", "o"]]},
     }}
 
